@@ -39,6 +39,7 @@ from mashumaro.core.const import (
 from mashumaro.dialect import Dialect
 
 __all__ = [
+    "is_nullable",
     "get_type_origin",
     "get_args",
     "type_name",
@@ -376,6 +377,52 @@ def is_optional(
         if resolved_type_params.get(arg, arg) is NoneType:
             return True
     return False
+
+
+def is_nullable(
+    typ: Type, resolved_type_params: Optional[dict[Type, Type]] = None
+) -> bool:
+    """Whether None is a value of the type: unlike is_optional it looks
+    through type parameters, Annotated, NewType, type aliases, Final and
+    ReadOnly, and accepts unions of any length and literals with None."""
+    if resolved_type_params is None:
+        resolved_type_params = {}
+    for _ in range(100):  # a recursive alias must not loop forever
+        typ = resolved_type_params.get(typ, typ)
+        if is_annotated(typ):
+            typ = get_type_origin(typ)
+        elif is_new_type(typ):
+            typ = typ.__supertype__
+        elif is_type_alias_type(typ):
+            typ = typ.__value__
+        elif (is_final(typ) or is_readonly(typ)) and get_args(typ):
+            typ = get_args(typ)[0]
+        else:
+            break
+    if typ in (Any, NoneType, None):
+        return True
+    elif is_union(typ):
+        return any(
+            is_nullable(arg, resolved_type_params) for arg in get_args(typ)
+        )
+    elif is_literal(typ):
+        return None in get_literal_values(typ)
+    elif is_type_var(typ):
+        if is_type_var_any(typ):
+            return True
+        constraints = getattr(typ, "__constraints__")
+        if constraints:
+            return any(
+                is_nullable(arg, resolved_type_params) for arg in constraints
+            )
+        elif type_var_has_default(typ):
+            return is_nullable(get_type_var_default(typ), resolved_type_params)
+        else:
+            return is_nullable(
+                getattr(typ, "__bound__"), resolved_type_params
+            )
+    else:
+        return False
 
 
 def is_annotated(typ: Type) -> bool:
